@@ -290,7 +290,7 @@ pub fn run(ctx: &Ctx) -> RunResult {
     ];
     let sizes = size_cases(ctx.tier == Tier::Thorough);
     rr.absorb(run_enum(ctx, "size", &sizes, |c, st| check_size(c, st)));
-    rr.absorb(run_prop(ctx, "buffer", ctx.pick(1_500, 45_000), arb_case, |c, st| check_buffer(c, st)));
+    rr.absorb(run_prop(ctx, "buffer", ctx.pick(30_000, 300_000), arb_case, |c, st| check_buffer(c, st)));
     rr
 }
 
